@@ -37,9 +37,9 @@ func (m *macroDef) defSrc() string {
 
 func (m *macroDef) defSrc1() string {
 	if m.probed {
-		return fmt.Sprintf("(defmac %s %s (px) (def r__ ^%s) (px) r__)", m.name, m.paramSrc(), m.body.Src(true))
+		return fmt.Sprintf("(defmac %s %s (px) (def r__ ^%s%s) (px) r__)", m.name, m.paramSrc(), afterPrefix(), m.body.Src(true))
 	}
-	return fmt.Sprintf("(defmac %s %s ^%s)", m.name, m.paramSrc(), m.body.Src(true))
+	return fmt.Sprintf("(defmac %s %s ^%s%s)", m.name, m.paramSrc(), afterPrefix(), m.body.Src(true))
 }
 
 func (h *H) pickParam(m *macroDef, kinds string) (string, bool) {
@@ -472,6 +472,11 @@ func (h *H) oneMacro(idx int) {
 		d.install(env)
 		for _, s := range []string{"(def g0 11)", "(def gl (list 1 2 3))", "(def a0 3)", "(def w0 40)", "(def w1 50)", m.defSrc()} {
 			if r := lib.Eval(env, s, budget); r.Class != lib.OutValue {
+				if s == m.defSrc() {
+					// a definition the reader or generator rejects: the cases below then fail
+					// against the specification with this definition in their replay
+					continue
+				}
 				panic("harness: macro setup failed: " + s + " => " + r.Show())
 			}
 		}
